@@ -104,8 +104,12 @@ pub fn ptext(a: &[f64], var: &str) -> String {
 }
 
 fn gen_cfg(r: &mut Rng) -> Cfg {
-    Cfg { ci: r.chance(0.85), xr: *r.pick(&[0usize, 1, 2, 4, 7, 16, 33, 50, 64]), yr: *r.pick(&[0usize, 1, 2, 5, 17, 50]), ic: *r.pick(&[0usize, 1, 2, 3, 8, 40, 64]),
-          mrf: *r.pick(&[60usize, 100, 200]), mi: *r.pick(&[80usize, 150, 200]), tol: 10f64.powi(r.range(-11, -4) as i32) }
+    // the two iteration budgets differ, and the quadrature budget is small whenever the integral is not asked for
+    // (and now and then when it is): each budget must reach only the routine it is meant for
+    let ci = r.chance(0.85);
+    let mi = if !ci || r.chance(0.15) { *r.pick(&[0usize, 1, 5, 10, 25]) } else { *r.pick(&[80usize, 150, 200]) };
+    Cfg { ci, xr: *r.pick(&[0usize, 1, 2, 4, 7, 16, 33, 50, 64]), yr: *r.pick(&[0usize, 1, 2, 5, 17, 50]), ic: *r.pick(&[0usize, 1, 2, 3, 8, 40, 64]),
+          mrf: *r.pick(&[60usize, 100, 200]), mi, tol: 10f64.powi(r.range(-11, -4) as i32) }
 }
 
 fn gen_intervals(r: &mut Rng) -> String {
@@ -125,7 +129,10 @@ pub fn gen_cases(r: &mut Rng, n: usize) -> Vec<Case> {
             let df = 1 + r.below(3) as usize; let dc = 1 + r.below(3) as usize;
             let fp: Vec<f64> = (0..=df).map(|_| r.dyadic(-2.0, 2.0, 2)).collect();
             let cp: Vec<f64> = (0..=dc).map(|_| r.dyadic(-1.0, 1.0, 3)).collect();
-            v.push(Case { rs, f: ptext(&fp, "x"), c: ptext(&cp, if rs { "x" } else { "y" }), iv: gen_intervals(r), cfg: gen_cfg(r), kind: "poly", poly: Some((fp, cp)), roots: None, saddle: false, rs_tp: None });
+            let cfg = gen_cfg(r);
+            // now and then an interval no wider than a few tolerances (the integral is still far above the oracle's floor)
+            let iv = if r.chance(0.15) { let a = r.dyadic(-3.0, 3.0, 3); let w = cfg.tol.max(1e-7) * *r.pick(&[0.25, 0.5, 1.0, 3.0]) * if r.chance(0.5) { 1.0 } else { -1.0 }; format!("[{:?}, {:?}]", a, a + w) } else { gen_intervals(r) };
+            v.push(Case { rs, f: ptext(&fp, "x"), c: ptext(&cp, if rs { "x" } else { "y" }), iv, cfg, kind: "poly", poly: Some((fp, cp)), roots: None, saddle: false, rs_tp: None });
         } else {
             v.push(Case { rs, f: r.pick(&fs).to_string(), c: if rs { r.pick(&gs).to_string() } else { r.pick(&cs).to_string() }, iv: gen_intervals(r), cfg: gen_cfg(r), kind: "smooth", poly: None, roots: None, saddle: false, rs_tp: None });
         }
@@ -172,6 +179,43 @@ pub fn gen_root_cases(r: &mut Rng, n: usize) -> Vec<Case> {
 }
 
 
+/// C11, exact on-grid saddle: g'(x) = K (x - s)^2 (x - r) with s a grid point, r the centre of a neighbouring cell and
+/// K = +-3*2^j, so that every coefficient of g' and of c(y) = y - G(y) + c0 is a short dyadic number and g'(s) evaluates
+/// to exactly 0 (not to rounding noise: that is the known finding). One boundary (at r), the saddle is none.
+pub fn gen_exact_saddle_cases(r: &mut Rng, n: usize) -> Vec<Case> {
+    let mut v = vec![];
+    for _ in 0..n {
+        let xr = *r.pick(&[8usize, 16, 32]);
+        let (a, b) = (-2.0, 2.0);
+        let h = (b - a) / xr as f64;
+        let si = 2 + r.below((xr - 4) as u64) as usize;          // saddle on grid point si, away from the ends
+        let s = a + h * si as f64;
+        let side = if r.chance(0.5) { 1.0 } else { -1.0 };       // the simple root is in the cell right / left of the saddle
+        let rt = s + side * h / 2.0;
+        let k = 3.0 * 2f64.powi(r.range(-2, 1) as i32) * if r.chance(0.5) { 1.0 } else { -1.0 };
+        let gp = pscale(&pmul(&pmul(&[-s, 1.0], &[-s, 1.0]), &[-rt, 1.0]), k);
+        if peval(&gp, s) != 0.0 { continue; }
+        let cprime = padd(&[1.0], &pscale(&gp, -1.0));
+        let mut cp = pint(&cprime);
+        cp[0] = r.dyadic(-2.0, 2.0, 2);
+        let rev = r.chance(0.5);
+        let iv = if rev { format!("[{:?}, {:?}]", b, a) } else { format!("[{:?}, {:?}]", a, b) };
+        // as in gen_root_cases: the probes g'(s +- tol) of the saddle test must be above the rounding resolution of g'
+        let mut tol = 10f64.powi(r.range(-9, -5) as i32);
+        let noise = 1e-16 * cprime.iter().enumerate().map(|(i, c)| c.abs() * 2f64.powi(i as i32)).sum::<f64>();
+        while tol < 1e-3 && peval(&gp, s + tol).abs().min(peval(&gp, s - tol).abs()) < 1e4 * noise { tol *= 10.0; }
+        if peval(&gp, s + tol).abs().min(peval(&gp, s - tol).abs()) < 1e4 * noise { continue; }
+        // the saddle test of the crate also compares g(s + tol) - g(s - tol) = (2/3) K (s - r) tol^3 with zero: that
+        // difference must be above the rounding resolution of the values of g (else: the known-finding class)
+        let gs = (s - peval(&cp, s)).abs().max(1.0);
+        while tol < 1e-2 && (2.0 / 3.0) * k.abs() * (s - rt).abs() * tol * tol * tol < 1e3 * f64::EPSILON * gs { tol *= 10.0; }
+        if (2.0 / 3.0) * k.abs() * (s - rt).abs() * tol * tol * tol < 1e3 * f64::EPSILON * gs { continue; }
+        v.push(Case { rs: false, f: "x".into(), c: ptext(&cp, "y"), iv, cfg: Cfg { ci: false, xr, yr: 2, ic: 1, mrf: 200, mi: 100, tol }, kind: "roots", poly: Some((gp.clone(), cprime.clone())),
+            roots: Some(vec![rt]), saddle: true, rs_tp: None });
+    }
+    v
+}
+
 /// C13 class: f and g polynomials (degree <= 4) with prescribed turning points at cell centres,
 /// pairwise >= 3 cells apart and >= 2 cells from the ends, optionally sharing one turning point.
 pub fn gen_rs_cases(r: &mut Rng, n: usize) -> Vec<Case> {
@@ -200,7 +244,8 @@ pub fn gen_rs_cases(r: &mut Rng, n: usize) -> Vec<Case> {
         let rev = r.chance(0.4);
         if rev { tps.reverse(); }
         let iv = if rev { format!("[{:?}, {:?}]", b, a) } else { format!("[{:?}, {:?}]", a, b) };
-        let cfg = Cfg { ci: r.chance(0.5), xr, yr: *r.pick(&[1usize, 2, 7, 50]), ic: *r.pick(&[0usize, 1, 3, 8]), mrf: 200, mi: 200, tol: 10f64.powi(r.range(-10, if w < 0.5 { -7 } else { -6 }) as i32) };
+        let ci = r.chance(0.5);
+        let cfg = Cfg { ci, xr, yr: *r.pick(&[1usize, 2, 7, 50]), ic: *r.pick(&[0usize, 1, 3, 8]), mrf: 200, mi: if ci { 200 } else { *r.pick(&[0usize, 1, 5, 25, 200]) }, tol: 10f64.powi(r.range(-10, if w < 0.5 { -7 } else { -6 }) as i32) };
         v.push(Case { rs: true, f: ptext(&fp, "x"), c: ptext(&gp, "x"), iv, cfg, kind: "rsclass", poly: Some((fp, gp)), roots: None, saddle: false, rs_tp: Some(tps) });
     }
     v
@@ -412,6 +457,7 @@ pub fn run(o: &Opts) -> Report {
     let mut r = Rng::new(o.seed ^ 0xD2D2);
     let mut cases = gen_cases(&mut r, if o.thorough { 2400 } else { 360 });
     cases.extend(gen_root_cases(&mut r, if o.thorough { 1500 } else { 240 }));
+    { let mut r2 = Rng::new(o.seed ^ 0x5ADD1E); cases.extend(gen_exact_saddle_cases(&mut r2, if o.thorough { 600 } else { 120 })); }
     cases.extend(gen_rs_cases(&mut r, if o.thorough { 3000 } else { 500 }));
     // offsets of the c-curve (C12): the same case with c + k
     let extra: Vec<Case> = cases.iter().filter(|c| !c.rs && c.kind != "roots").take(if o.thorough { 300 } else { 60 }).map(|c| { let mut d = c.clone(); d.c = format!("({}) + {}", c.c, r.pick(&["1", "1000", "pi", "2.5"])); d.kind = "offset"; d.poly = None; d }).collect();
@@ -447,6 +493,11 @@ pub fn run(o: &Opts) -> Report {
         };
         rep.count(&format!("impl:{}", wire.split(' ').take(if wire.starts_with("ok") { 1 } else { 3 }).collect::<Vec<_>>().join("-")));
         if let Out2::Panic(m) = &out { rep.finding("oracle", &["C19"], "panic", c.text(), m.clone()); }
+        // an in-class input (prescribed simple roots / turning points, polynomial data, adequate root-finding budget,
+        // no integral asked for) must produce displays
+        if let (Out2::Err(m), true) = (&out, (c.kind == "roots" || c.kind == "rsclass") && !c.cfg.ci && c.cfg.mrf >= 100) {
+            rep.finding("oracle", if c.rs { &["C13"] } else { &["C11"] }, "in-class-input-rejected", c.text(), m.clone());
+        }
         if wire == "err parsing" && rep.notes.len() < 3 { rep.notes.push(format!("parse error (generator): {}", c.text())); }
         // C19: identical to the closure-level generator on the compiled functions
         if let Some(cl) = run_closure_api(c) {
